@@ -174,6 +174,10 @@ impl Sub for Validators {
         // a caller's own rule for exp / nbf (on the batteries-included parser it takes the place of the default rule)
         "exp" => ClaimSpec::Exp("2020-01-01T00:00:00Z".into()),
         "nbf" => ClaimSpec::NbfOwned("2020-01-01T00:00:00Z".into()),
+        // the claim object a validator is registered with is only a carrier for the key; here its VALUE is one that
+        // serde_json cannot hold (u128::MAX, i128::MIN, a map keyed by tuples): the parse may then fail for that reason,
+        // but it may not succeed with the validator left out
+        other if c.seed[5] % 4 == 0 && id % 2 == 1 => ClaimSpec::Native(other.to_string(), NativeVal::Unholdable(c.seed[6])),
         other if id % 2 == 0 => ClaimSpec::Custom(other.to_string(), json!(1)),
         other => ClaimSpec::Any(other.to_string(), Value::Null),
       })
@@ -390,6 +394,13 @@ impl Sub for Validators {
           vio!("C16:rejecting-validator-ignored:{}", c.layer.label(); "validators for {:?} must reject payload {} but parse #{} succeeded (expected claims {:?} were registered too; log {:?})", model_rejects, Value::Object(payload.clone()), i + 1, checks, log);
         }
         continue;
+      }
+      let unholdable = claim_specs.iter().zip(vals.iter()).any(|(sp, _)| matches!(sp, ClaimSpec::Native(_, NativeVal::Unholdable(_))));
+      if unholdable {
+        cl.tag("validator-registered-with-a-value-json-cannot-hold");
+        if r.is_err() {
+          continue; // refusing to work with such a registration (with whatever error) is not judged
+        }
       }
       match (&r, model_rejects.is_empty()) {
         (Ok(_), true) => {
